@@ -54,7 +54,9 @@ pub fn translate(repo: &Path, out: &mut Out) {
         if let Some(f) = find_free_fn(&file, "delete_layer") {
             let body = squash(&f.block);
             let dir = body.contains("default_on_not_found(remove_dir_recursively(&layer_dir))?;");
-            let toml = body.contains("default_on_not_found(fs::remove_file(layer_toml))?;");
+            let toml = body.contains("default_on_not_found(fs::remove_file(layer_toml))?;")
+                && body.contains("letlayer_toml=layers_dir.as_ref().join(format!(\"{layer_name}.toml\"));")
+                && body.contains("letlayer_dir=layers_dir.as_ref().join(layer_name.as_str());");
             let sboms = body.contains("forformatinSBOM_FORMATS{default_on_not_found(fs::remove_file(cnb_sbom_path(format,");
             let _ = writeln!(v, "Definition delete_layer_removes_dir : bool := {dir}.");
             let _ = writeln!(v, "Definition delete_layer_removes_toml : bool := {toml}.");
